@@ -85,6 +85,9 @@ def run(pid, tier):
                 ev.append(dict(ev="RetimeSkip", m1=nums(rt["meat1"]), m2=nums(rt["meat2"])))
             else:
                 ev.append(dict(ev="Retime", m1=nums(rt["meat1"]), m2=nums(rt["meat2"]), r=nums(rt["out"])))
+        for lp in run_.get("lps", []):
+            if lp["consts"]["add"]["meat"] and lp["consts"]["store"]:
+                ev.append(dict(ev="Running", round=lp["round"], meat=nums(lp["series"]["meat"]), running=nums(lp["series"]["meat_running"])))
         if bp:
             a = bp["args"]
             ev.append(dict(ev="Bump", b=nums(a["biofuel"]), f=nums(a["feed"]), maxB=nums(a["max_biofuel"]), maxF=nums(a["max_feed"]),
